@@ -877,21 +877,6 @@ class Pass2(CompilePass):
                             node=dim_range,
                         )
 
-            if decl.array_dims and node.kind not in ('dim_shared', 'static') \
-               and not node.parent_routine.is_static \
-               and all(d.is_const for d in decl.array_dims):
-                # the array lives in the call frame, whose size is a
-                # 16-bit operand of the FRAME instruction
-                n_cells = 3 + 2 * len(decl.array_dims)
-                n_elements = 1
-                for d in decl.array_dims:
-                    n_elements *= d.static_ubound - d.static_lbound + 1
-                if n_cells + n_elements > 0xffff:
-                    raise CompileError(
-                        EC.INVALID_DIMENSIONS,
-                        'Array too large',
-                        node=decl)
-
             if node.parent_routine.has_variable(decl.name) or \
                decl.name in self.compilation.routines:
                 raise CompileError(
@@ -905,6 +890,20 @@ class Pass2(CompilePass):
                 node.parent_routine.static_vars[decl.name] = decl.type
             else:
                 node.parent_routine.local_vars[decl.name] = decl.type
+
+                # all frame-allocated variables of a routine together
+                # must fit the 16-bit size operand of FRAME
+                from qvm.memlayout import get_local_vars_size
+                try:
+                    frame_cells = get_local_vars_size(node.parent_routine)
+                except KeyError:
+                    # a type that is not defined (reported elsewhere)
+                    frame_cells = 0
+                if frame_cells > 0xffff:
+                    raise CompileError(
+                        EC.INVALID_DIMENSIONS,
+                        'Variables of this routine do not fit a call frame',
+                        node=decl)
 
     def process_assignment_pre(self, node):
         if not node.lvalue.type.is_coercible_to(node.rvalue.type):
